@@ -1,15 +1,17 @@
 """C15 - round-robin schedulers give each backlogged class its per-visit allowance"""
-from . import sched as S, elements, keydomains
+from . import sched as S, elements, keydomains, deps
 
 def check(ctx):
     S.run_tables(ctx, 'C15', [('DRR', '__init__'), ('DRR', 'put'), ('DRR', 'run'), ('DRR', 'serve'), ('RR', '__init__'), ('RR', 'run'),
                               ('WRR', '__init__'), ('WRR', 'run'), ('MultiQueueScheduler', 'put'),
-                              ('Scheduler', 'send_packet'), ('Scheduler', 'add_packet_to_queue')])
+                              ('Scheduler', 'send_packet'), ('Scheduler', 'add_packet_to_queue'), ('Scheduler', 'total_packets'),
+                              ('MultiQueueScheduler', '__init__'), ('Scheduler', '__init__')])
     elements.class_constants(ctx, 'C15', {('DRR', 'MIN_QUANTUM'): '1500'})
-    elements.send_packet_awaited(ctx, 'C15', only=('DRR', 'RR', 'WRR'))
-    elements.departure_bookkeeping_atomic(ctx, 'C15', only=('DRR', 'RR', 'WRR'))
-    keydomains.check(ctx, 'C15', only=('DRR', 'RR', 'WRR'))
-    elements.class_method_sets(ctx, 'C15', only=('DRR', 'RR', 'WRR'))
+    elements.send_packet_awaited(ctx, 'C15', only=('DRR', 'RR', 'WRR', 'MultiQueueScheduler', 'Scheduler'))
+    elements.departure_bookkeeping_atomic(ctx, 'C15', only=('DRR', 'RR', 'WRR', 'MultiQueueScheduler', 'Scheduler'))
+    keydomains.check(ctx, 'C15', only=('DRR', 'RR', 'WRR', 'MultiQueueScheduler', 'Scheduler'))
+    elements.class_method_sets(ctx, 'C15', only=('DRR', 'RR', 'WRR', 'MultiQueueScheduler', 'Scheduler'))
+    deps.element_layers(ctx, 'C15')
     return ('Static: DRR.__init__ (quantum 1500*w/min w, zero credit, declaration order), DRR.run (credit += quantum once '
             'per visit iff backlogged, send while the credit covers the head, debit, forget credit when the class empties, '
             'park an unaffordable head under its class), RR.run (one packet per visit), WRR.run (up to weight, queue '
